@@ -142,3 +142,7 @@ pub(crate) fn pick(n: usize) -> Option<usize> {
     }
     next_choice().map(|z| (z % n as u64) as usize)
 }
+
+pub use crate::link::network::N;
+pub use crate::server::verif_stack::{remote_v4, remote_v5, WillHandlers};
+pub use crate::ConnectionSettings;
